@@ -387,8 +387,12 @@ func runLLMNR(w *rt.World, res *hx.Result, realServer, realClient bool) *hx.Viol
 	var stopper2 *rt.Task
 	if realServer && stopMode >= 3 {
 		if stopTwice {
-			// a second caller closes at the same moment from another task
+			// further callers close at the same moment from other tasks
 			stopper2 = rt.GoHarness("stopper2", serverHost, func() {
+				rt.SleepUntil(startT + stopAt)
+				srv.Close()
+			})
+			rt.GoHarness("stopper3", serverHost, func() {
 				rt.SleepUntil(startT + stopAt)
 				srv.Close()
 			})
@@ -410,9 +414,14 @@ func runLLMNR(w *rt.World, res *hx.Result, realServer, realClient bool) *hx.Viol
 	closedEarly := false
 	if realClient && clientCloseMode >= 4 {
 		closedEarly = true
+		at := startT + [...]int64{0, 0, 0, 0, 1e6, 900e6}[clientCloseMode]
 		closer = rt.GoHarness("client-closer", "10.0.1.1", func() {
-			rt.SleepUntil(startT + [...]int64{0, 0, 0, 0, 1e6, 900e6}[clientCloseMode])
+			rt.SleepUntil(at)
 			cl.Close()
+			cl.Close()
+		})
+		rt.GoHarness("client-closer2", "10.0.1.1", func() {
+			rt.SleepUntil(at)
 			cl.Close()
 		})
 	}
@@ -422,8 +431,32 @@ func runLLMNR(w *rt.World, res *hx.Result, realServer, realClient bool) *hx.Viol
 		}
 	}
 
-	// ---- shutdown phase
+	// ---- quiet phase: once faults have stopped, a fresh query on the same client is answered (bounded liveness)
 	w.Quiet = true
+	var probeQ *llQuery
+	if realClient && !closedEarly && !stoppedEarly {
+		pn := -1
+		for i := 0; i < nNames; i++ {
+			if known[i] {
+				pn = i
+			}
+		}
+		if pn >= 0 {
+			probeQ = &llQuery{name: pn}
+			pt := rt.GoHarness("probe-query", "10.0.1.1", func() {
+				rt.SleepUntil(rt.Now() + 3e9) // let stragglers (delayed duplicates) of earlier queries arrive first
+				probeQ.start = rt.Now()
+				probeQ.resp, probeQ.err = cl.Query(context.Background(), llName(pn), llmnr.TypeA)
+				probeQ.end = rt.Now()
+				probeQ.done = true
+			})
+			if !joinWithin(pt, 30e9) {
+				return &hx.Violation{Class: "query_stuck", Key: sysName, Msg: "a Query issued after all faults had stopped did not return: " + pt.StateString()}
+			}
+		}
+	}
+
+	// ---- shutdown phase
 	stopResponders = true
 	if realServer {
 		if stopper == nil {
@@ -431,6 +464,9 @@ func runLLMNR(w *rt.World, res *hx.Result, realServer, realClient bool) *hx.Viol
 				noteStop()
 				srv.Close()
 			})
+			if stopTwice {
+				stopper2 = rt.GoHarness("stopper2", serverHost, func() { srv.Close() })
+			}
 		}
 		if !joinWithin(stopper, llStopBound) {
 			return &hx.Violation{Class: "stop_blocked", Key: sysName, Msg: "Close() did not return; the calling task is " + stopper.StateString()}
@@ -449,6 +485,7 @@ func runLLMNR(w *rt.World, res *hx.Result, realServer, realClient bool) *hx.Viol
 	if realClient {
 		if closer == nil {
 			closer = rt.GoHarness("client-closer", "10.0.1.1", func() { cl.Close() })
+			rt.GoHarness("client-closer2", "10.0.1.1", func() { cl.Close() })
 		}
 		if !joinWithin(closer, llStopBound) {
 			return &hx.Violation{Class: "stop_blocked", Key: "llmnr.Client", Msg: "Client.Close() did not return; the calling task is " + closer.StateString()}
@@ -581,6 +618,27 @@ func runLLMNR(w *rt.World, res *hx.Result, realServer, realClient bool) *hx.Viol
 			if len(r.Answers) != 1 || r.Answers[0].Name != name || !net.IP(r.Answers[0].RData).Equal(llIP(q.name)) {
 				return &hx.Violation{Class: "client_mismatch", Key: "wrong_content",
 					Msg: fmt.Sprintf("Query(%s) was handed a response whose id matches but whose content is for something else: %+v", name, r.Answers)}
+			}
+		}
+		if probeQ != nil && probeQ.done {
+			name := llName(probeQ.name)
+			ids := wireID[name]
+			if probeQ.err != nil {
+				return &hx.Violation{Class: "client_mismatch", Key: "wedged",
+					Msg: fmt.Sprintf("after all faults had stopped, Query(%s) on the same client failed (%v) although the responder answered it: the client no longer delivers responses", name, probeQ.err)}
+			}
+			r := probeQ.resp
+			last := uint16(0)
+			if len(ids) > 0 {
+				last = ids[len(ids)-1]
+			}
+			if r == nil || len(ids) == 0 || r.ID != last || !r.IsResponse() || len(r.Answers) != 1 || r.Answers[0].Name != name || !net.IP(r.Answers[0].RData).Equal(llIP(probeQ.name)) {
+				got := "nil"
+				if r != nil {
+					got = fmt.Sprintf("id=%#04x flags=%#04x answers=%+v", r.ID, r.Flags, r.Answers)
+				}
+				return &hx.Violation{Class: "client_mismatch", Key: "stale_response",
+					Msg: fmt.Sprintf("after all faults had stopped, Query(%s) sent id %#04x and was handed %s", name, last, got)}
 			}
 		}
 		sample = append(sample, fmt.Sprintf("real client: %d concurrent Query calls", len(realQs)))
